@@ -45,6 +45,7 @@ Definition zipf (cm : callmode) (default : bool) (tag : Z) : bool :=
 Definition child (cm : callmode) : callmode := CKw (match cm with CDefault => CBool false | CKw c => c end).
 
 Section CodecV.
+Variable cf : cfg.
 Variable ev : str -> Qc.
 
 Definition pair_opt {A B} (a : option A) (b : option B) : option (A * B) :=
@@ -52,12 +53,12 @@ Definition pair_opt {A B} (a : option A) (b : option B) : option (A * B) :=
 
 Fixpoint enc_value (cm : callmode) (v : value) : option wire :=
   match v with
-  | VCircuit c => Some (WStr (zipf cm true 1) (PCircuit (enc_circuit ev c)))
-  | VComponent c => Some (WStr (zipf cm true 2) (PComponent (enc_comp ev 0 c)))
-  | VExperiment e => Some (WStr (zipf cm true 3) (PExperiment (enc_exp ev e)))
+  | VCircuit c => Some (WStr (zipf cm true 1) (PCircuit (enc_circuit cf ev c)))
+  | VComponent c => Some (WStr (zipf cm true 2) (PComponent (enc_comp cf ev 0 c)))
+  | VExperiment e => Some (WStr (zipf cm true 3) (PExperiment (enc_exp cf ev e)))
   | VHerald v u => Some (WStr (zipf cm true 4) (PHerald (enc_aport (AHerald v u))))
   | VPort n e => Some (WStr (zipf cm true 5) (PPort (WPort n e)))
-  | VMatrix m => Some (WStr (zipf cm false 0) (PMatrix (enc_mat m)))
+  | VMatrix m => Some (WStr (zipf cm false 0) (PMatrix (enc_mat cf m)))
   | VState b => Some (WStr (zipf cm false 6) (PState b))
   | VSV s => Some (WStr (zipf cm false 7) (PSV (enc_sv s)))
   | VSVD d => Some (WStr (zipf cm false 8) (PSVD (enc_svd d)))
@@ -66,10 +67,16 @@ Fixpoint enc_value (cm : callmode) (v : value) : option wire :=
   | VBSS l => Some (WStr (zipf cm true 11) (PBSS (fst (enc_bss l)) (snd (enc_bss l))))
   | VNoise n => Some (WStr (zipf cm false 12) (PNoise (enc_noise n)))
   | VPost s => Some (WStr (zipf cm false 13) (PPost s))
-  (* `def serialize(obj: Detector, do_compress=False)` registered under dispatch(Detector, compress=...): a call with the
-     keyword `compress` raises TypeError; lists and dicts always pass `compress=` to their elements *)
-  | VDet d => match cm with CDefault => Some (WStr false (PDet (enc_det d))) | CKw _ => None end
-  | VPPNR n l r => match cm with CDefault => Some (WStr false (PPPNR n l r)) | CKw _ => None end
+  (* before 59614844: `def serialize(obj: Detector, do_compress=False)` registered under dispatch(Detector, compress=...): a
+     call with the keyword `compress` raised TypeError; lists and dicts always pass `compress=` to their elements *)
+  | VDet d => match cm with
+              | CDefault => Some (WStr false (PDet (enc_det d)))
+              | CKw c => if fix_detkw cf then Some (WStr (do_zip c 15) (PDet (enc_det d))) else None
+              end
+  | VPPNR n l r => match cm with
+                   | CDefault => Some (WStr false (PPPNR n l r))
+                   | CKw c => if fix_detkw cf then Some (WStr (do_zip c 14) (PPPNR n l r)) else None
+                   end
   | VOther z => Some (WOther z)
   | VList l => option_map WList (seq_opt (map (enc_value (child cm)) l))
   | VDict l =>
@@ -86,9 +93,9 @@ Inductive dvalue :=
 
 Definition dec_payload (p : payload) : option dvalue :=
   match p with
-  | PCircuit w => option_map DVCircuit (dec_circuit w)
-  | PComponent w => option_map DVComponent (dec_component w)
-  | PExperiment w => option_map DVExperiment (dec_exp w)
+  | PCircuit w => option_map DVCircuit (dec_circuit cf w)
+  | PComponent w => option_map DVComponent (dec_component cf w)
+  | PExperiment w => option_map DVExperiment (dec_exp cf w)
   | PHerald w => match dec_aport w with AHerald v u => Some (DVHerald v u) | _ => None end
   | PPort w => match dec_aport w with APort n e => Some (DVPort n e) | _ => None end
   | PMatrix w => option_map DVMatrix (dec_mat w)
